@@ -22,7 +22,8 @@ PARTIAL = ["calibrated + running intersection => clique beliefs are marginals (K
            "networkx find_cliques / spanning tree are validated per case by the model's decidable tree / running-intersection predicates"]
 RULE = ("connected models of the four kinds (BN, MarkovNetwork, FactorGraph, JunctionTree) with 2-5 variables, cards 2-3, unary / duplicate "
         "factors, string / int / permuted state names; calibrate and max_calibrate beliefs vs exact (max-)marginals; queries with evidence by "
-        "state name, joint and per-variable; 6 hash seeds; non-trivial = at least two cliques or evidence; distinct = case JSON")
+        "state name, joint and per-variable; 6 hash seeds; non-trivial = at least two cliques or evidence; distinct = case JSON"
+        " Also: explicit junction trees with separator nodes (kind jtx), variable names of mixed types, virtual evidence in BP queries, BeliefPropagationWithMessagePassing on loop-free factor graphs.")
 ASSUMPTIONS = ["interaction graph connected (the library rejects disconnected clique trees by design)"]
 BUDGET_QUICK = 90
 LEVEL_TEXT = ("Kernel-checked: a belief-update message preserves the clique-tree measure (prod beliefs = prod sepsets x prod factors) pointwise "
